@@ -31,10 +31,17 @@ theorem vecRawW_eq (p n : Bool) : Gen.Ser.vecRawW p n = (p && n) := rfl
 theorem vecRawR_eq (p n : Bool) : Gen.Ser.vecRawR p n = (p && n) := rfl
 theorem strRawW_char (n : Bool) : Gen.Ser.strRawW true n 1 = true := by cases n <;> rfl
 theorem strRawR_char (n : Bool) : Gen.Ser.strRawR true n 1 = true := by cases n <;> rfl
-/-- the condition of the raw `std::pair` path, as in the pinned source (finding C15-F1: it does not
-ask for the absence of padding) -/
-theorem pairRawW_eq (pa pb n : Bool) (sa sb sp : Nat) : Gen.Ser.pairRawW pa pb n sa sb sp = (pa && pb && n) := rfl
-theorem pairRawR_eq (pa pb n : Bool) (sa sb sp : Nat) : Gen.Ser.pairRawR pa pb n sa sb sp = (pa && pb && n) := rfl
+/-- the raw `std::pair` path is selected by the same condition for writing and reading -/
+theorem pairRaw_WR (pa pb n : Bool) (sa sb sp : Nat) :
+    Gen.Ser.pairRawW pa pb n sa sb sp = Gen.Ser.pairRawR pa pb n sa sb sp := rfl
+/-- … and only for two PODs without byte swapping -/
+theorem pairRaw_imp (pa pb n : Bool) (sa sb sp : Nat) (h : Gen.Ser.pairRawW pa pb n sa sb sp = true) :
+    (pa && pb && n) = true := by
+  cases pa <;> cases pb <;> cases n <;> simp_all [Gen.Ser.pairRawW]
+/-- the raw path is taken only for pair objects without padding (repair of finding C15-F1) -/
+theorem pairRaw_tight (pa pb n : Bool) (sa sb sp : Nat) (h : Gen.Ser.pairRawW pa pb n sa sb sp = true) :
+    sp = sa + sb := by
+  cases pa <;> cases pb <;> cases n <;> simp_all [Gen.Ser.pairRawW]
 theorem pairFirstW_eq : Gen.Ser.pairFirstW = 0 := rfl
 theorem pairFirstR_eq : Gen.Ser.pairFirstR = 0 := rfl
 
